@@ -66,7 +66,7 @@ Print Assumptions C08_sdr_meaning.
    a1 : m x n any matrix; vp, vq : the permutations of perms_by_pivots; r pivots; the permuted leading block
    triangular; sc the Schur data.  With f1 = [0 1] q, b1 = q^-1 [-a^-1 b; 1], f2 = [-c a^-1 1] p,
    b2 = p^-1 [0; 1], h = q^-1 [a^-1 0; 0 0] p  (definitions step_f1 .. step_h of Proofs/C08Step.v): *)
-Theorem C08_step : forall (R : Type) (o : ring_ops R) (u : unit_ops R), ring_laws o -> unit_laws o u ->
+Theorem C08_step : forall (R : Type) (o : ring_ops R), ring_laws o -> forall u : unit_ops R, unit_laws o u ->
   forall (a1 : dmat R) (vp vq : list nat) (r : nat) (t : ttype) (sc : schur R),
   dwf a1 -> is_perm (dr a1) vp -> is_perm (dc a1) vq ->
   tri_ok o t (dblock o (permute o a1 vp vq) 0 0 r r) r ->
@@ -93,7 +93,7 @@ Proof. exact @step_summary. Qed.
 Print Assumptions C08_step.
 
 (* the Schur complement does not panic when the r pivots are units (and r fits) *)
-Theorem C08_schur_defined : forall (R : Type) (o : ring_ops R) (u : unit_ops R), ring_laws o -> unit_laws o u ->
+Theorem C08_schur_defined : forall (R : Type) (o : ring_ops R) (u : unit_ops R), unit_laws o u ->
   forall (t : ttype) (A : dmat R) (r : nat),
   r <= dr A -> r <= dc A -> unit_diag o u (dblock o A 0 0 r r) r ->
   exists sc, schur_of o u t A r = Some sc.
@@ -103,7 +103,7 @@ Print Assumptions C08_schur_defined.
 (* ---------- C08_step_state: one step of the reducer, from a state with any history ----------
    reduce_with = the body of reduce_at_spec after pivots() answered [pivs]; it updates the three
    neighbouring matrices, the stored Trans and the tracked vectors. *)
-Theorem C08_step_state : forall (R : Type) (o : ring_ops R) (u : unit_ops R), ring_laws o -> unit_laws o u ->
+Theorem C08_step_state : forall (R : Type) (o : ring_ops R), ring_laws o -> forall u : unit_ops R, unit_laws o u ->
   forall (M : nat) (N : nat -> nat) (D : nat -> dmat R) (V0 : nat -> list (list R)),
   (forall p, p < M -> dwf (D p) /\ dr (D p) = N (S p) /\ dc (D p) = N p) ->
   forall (st : state R) (p : nat) (a1 : dmat R) (pt : ptype) (pivs : list (nat * nat)) (st' : state R) (cont : bool),
@@ -113,7 +113,7 @@ Theorem C08_step_state : forall (R : Type) (o : ring_ops R) (u : unit_ops R), ri
 Proof. exact @step_main. Qed.
 Print Assumptions C08_step_state.
 
-Theorem C08_reduce_at_spec : forall (R : Type) (o : ring_ops R) (u : unit_ops R), ring_laws o -> unit_laws o u ->
+Theorem C08_reduce_at_spec : forall (R : Type) (o : ring_ops R), ring_laws o -> forall u : unit_ops R, unit_laws o u ->
   forall (M : nat) (N : nat -> nat) (D : nat -> dmat R) (V0 : nat -> list (list R)),
   (forall p, p < M -> dwf (D p) /\ dr (D p) = N (S p) /\ dc (D p) = N p) ->
   forall (st : state R) (p : nat) (pt : ptype) (orc : list (list (nat * nat))) (st' : state R) (cont : bool)
@@ -137,7 +137,7 @@ Theorem C08_input_meaning : forall (R : Type) (o : ring_ops R) (M : nat) (N : na
 Proof. exact (fun R o M N D V0 st0 => iff_refl _). Qed.
 Print Assumptions C08_input_meaning.
 
-Theorem C08_all : forall (R : Type) (o : ring_ops R) (u : unit_ops R), ring_laws o -> unit_laws o u ->
+Theorem C08_all : forall (R : Type) (o : ring_ops R), ring_laws o -> forall u : unit_ops R, unit_laws o u ->
   forall (M : nat) (N : nat -> nat) (D : nat -> dmat R) (V0 : nat -> list (list R)),
   (forall p, p < M -> dwf (D p) /\ dr (D p) = N (S p) /\ dc (D p) = N p) ->
   forall (st0 : state R) (supp : list nat) (ops : list op) (orc : list (list (nat * nat)))
@@ -149,7 +149,7 @@ Proof. exact @run_script_main. Qed.
 Print Assumptions C08_all.
 
 (* ChainReducer::reduce(complex, with_trans) = from; reduce_all(false); reduce_all(true), any support order *)
-Theorem C08_reduce : forall (R : Type) (o : ring_ops R) (u : unit_ops R), ring_laws o -> unit_laws o u ->
+Theorem C08_reduce : forall (R : Type) (o : ring_ops R), ring_laws o -> forall u : unit_ops R, unit_laws o u ->
   forall (dims : list nat) (ds : list (dmat R)) (with_trans : bool) (supp : list nat)
          (orc : list (list (nat * nat))) (st : state R) (orc' : list (list (nat * nat))),
   is_complex o dims ds ->
@@ -160,7 +160,7 @@ Print Assumptions C08_reduce.
 
 (* ChainComplexBase::reduced: every summand gets rank ncols(d_p) and the reducer's Trans, and the old
    differential seen through the new Trans, F_(p+1) D_p B_p, is the reducer's matrix d_p *)
-Theorem C08_reduced : forall (R : Type) (o : ring_ops R) (u : unit_ops R), ring_laws o -> unit_laws o u ->
+Theorem C08_reduced : forall (R : Type) (o : ring_ops R), ring_laws o -> forall u : unit_ops R, unit_laws o u ->
   forall (dims : list nat) (ds : list (dmat R)) (descending : bool)
          (orc : list (list (nat * nat))) (st : state R) (orc' : list (list (nat * nat))),
   is_complex o dims ds ->
